@@ -137,6 +137,9 @@ struct ListTarget
             size_t const pos = (size_t)(mag(o.a[0]) % (len + 1));
             a_list *x = member(h, pos);
             link_chain(fr);
+            c.site("a_list_loop");
+            a_list_loop(nd(fr.front()), nd(fr.back())); // the detached chain is a closed ring of its own before it is spliced in
+            if (nd(fr.front())->prev != nd(fr.back()) || nd(fr.back())->next != nd(fr.front())) { c.fail("links-inconsistent", "a_list_loop", "a_list_loop did not close the chain"); break; }
             c.site("a_list_add_");
             a_list_add_(x->next, x, nd(fr.front()), nd(fr.back()));
             M.insert(M.begin() + (long)pos, fr.begin(), fr.end());
@@ -210,7 +213,8 @@ struct ListTarget
             bool const nx = (o.kind - 300) == L_MOV_NEXT;
             c.site(nx ? "a_list_mov_next" : "a_list_mov_prev");
             if (nx) a_list_mov_next(x, head[g]); else a_list_mov_prev(x, head[g]);
-            a_list_init(head[g]); // the source head is re-initialised by the caller, as test/list.h does
+            // the source head is re-initialised by the caller, as test/list.h does
+            switch (mag(o.a[2]) % 3) { case 0: a_list_init(head[g]); break; case 1: a_list_ctor(head[g]); break; default: a_list_dtor(head[g]); break; }
             size_t at = nx ? pos : (pos == 0 ? len : pos - 1);
             M.insert(M.begin() + (long)at, L[g].begin(), L[g].end());
             L[g].clear();
@@ -484,7 +488,8 @@ struct SlistTarget
             size_t const pos = (size_t)(mag(o.a[0]) % (len + 1));
             c.site("a_slist_mov");
             a_slist_mov(list[g], l, member(h, pos));
-            a_slist_init(list[g]); // the source is re-initialised by the caller
+            // the source is re-initialised by the caller (all three spellings do the same thing)
+            switch (mag(o.a[2]) % 3) { case 0: a_slist_init(list[g]); break; case 1: a_slist_ctor(list[g]); break; default: a_slist_dtor(list[g]); break; }
             M.insert(M.begin() + (long)pos, L[g].begin(), L[g].end());
             if (L[g].empty()) c.st.add("probe.slist_mov_empty_source"); else c.st.add(pos == len ? "probe.slist_mov_to_end" : "probe.slist_mov_inside");
             L[g].clear();
